@@ -565,7 +565,8 @@ def corner(m, line, sigbase):
 
 
 def reductions(m, line):
-    """(feature, simpler line) pairs used to name the features a failure needs."""
+    """(feature, simpler line) pairs: the line with one feature (alias spelling of the path, post-option word,
+    option, tail) removed; the metamorphic relations compare the outcomes of the two."""
     lead, optpart, tail = line
     out = []
     cur, k = m.walk(lead)
@@ -585,7 +586,7 @@ def reductions(m, line):
 # one tree
 # ---------------------------------------------------------------------------------------------
 def check_tree(tree, tier, unknown, cap=20, run_checks=True):
-    """-> (counts dict, [violation, ...]) for one tree; violations carry a rank for global ordering."""
+    """-> (counts dict, [violation, ...]) for one tree (at most `cap` violations, simplest line first)."""
     m = Model(tree, unknown)
     app, cfg, log = build(tree)
     lines = lines_for(m, tier)
@@ -622,7 +623,7 @@ def check_tree(tree, tier, unknown, cap=20, run_checks=True):
             add(bad[0], bad[1], line, "oracle", bad[2], bad[3])
         # nothing may run for an undefined command; the selected handler and only it runs otherwise
         if run_checks and not bad and (verdict in ("undefined", "selected") and ((not line[1] and not line[2]) or (m.n <= 2 and verdict == "undefined"))):
-            cnt["runs"] += 1
+            cnt["runs"] += 2 if verdict == "undefined" else 1  # undefined: once catching exceptions, once not
             r = judge_run(m, app, cfg, log, line, verdict, expectation(m, line)[1])
             if r:
                 add(r[0], r[1], line, "run", r[2], r[3])
